@@ -9,6 +9,7 @@ from .. import rfa_common as R
 from ..core import fmt, frac, floats, pw_field, err_kind
 
 ID = "C06"
+THREADS = True       # part of the cases run concurrently in threads of one interpreter (the schedule dimension)
 MODULES = ["TWV.Properties.RfaImp", "TWV.Tie.RfaLoops", "TWV.Properties.C06", "TWV.Tie.Funfit"]
 TRANSLATORS = ["t4_rfaloops", "t1_funfit"]
 TIE = ("translator T1 regenerates the five shape functions from funfit.py's AST; TWV.Tie.Funfit proves them equal to the hand "
